@@ -360,6 +360,15 @@ int main(int argc, char **argv)
 	gen_subjects(maxn);
 	if (nv_shard == 0)
 		run_depth();
+	/* hand-written atoms outside the enumerated eleven: brackets with a multi-byte member, the class
+	 * [:upper:] (whose meaning depends on ignore-case), alone and under the constructors */
+	{
+		static const char *extra[] = {"n", "o", "p", "q", "*n", "+o", "+p", "Cpq", "Cqp", "Apb", "Gp", "*Gq", "Cap", "C*pa", "?p", "1q", "Cno", "CGpGq"};
+		unsigned e;
+		for (e = 0; e < sizeof(extra) / sizeof(extra[0]); e++)
+			if ((idx++ % nv_nshards) == nv_shard)
+				run_pattern(extra[e], &npat);
+	}
 	for (s = 1; s <= maxsz; s++) {
 		for (x = 0; x < alt[s].n; x++) {
 			if ((idx++ % nv_nshards) != nv_shard)
